@@ -1503,20 +1503,33 @@ sf_command	(SNDFILE *sndfile, int command, void *data, int datasize)
 					} ;
 				} ;
 
-			free (psf->channel_map) ;
-			if ((psf->channel_map = malloc (datasize)) == NULL)
-			{	psf->error = SFE_MALLOC_FAILED ;
-				return SF_FALSE ;
+			{	int *old_map = psf->channel_map ;
+
+				if ((psf->channel_map = malloc (datasize)) == NULL)
+				{	psf->channel_map = old_map ;
+					psf->error = SFE_MALLOC_FAILED ;
+					return SF_FALSE ;
+					} ;
+
+				memcpy (psf->channel_map, data, datasize) ;
+
+				/*
+				**	Pass the command down to the container's command handler.
+				**	Don't pass user data, use validated psf->channel_map data instead.
+				*/
+				if (psf->command && psf->command (psf, command, NULL, 0))
+				{	free (old_map) ;
+					return SF_TRUE ;
+					} ;
+
+				/* The container cannot store this map : a map accepted before stays in force (the handler derives its tag / mask from it again). */
+				if (old_map != NULL)
+				{	free (psf->channel_map) ;
+					psf->channel_map = old_map ;
+					if (psf->command)
+						psf->command (psf, command, NULL, 0) ;
+					} ;
 				} ;
-
-			memcpy (psf->channel_map, data, datasize) ;
-
-			/*
-			**	Pass the command down to the container's command handler.
-			**	Don't pass user data, use validated psf->channel_map data instead.
-			*/
-			if (psf->command)
-				return psf->command (psf, command, NULL, 0) ;
 			return SF_FALSE ;
 
 		case SFC_SET_VBR_ENCODING_QUALITY :
